@@ -37,6 +37,9 @@ type LifeParams struct {
 	// AckDuringReopen: the re-open request is answered after 500 ms; optionally one pending (stale) event is
 	// acknowledged while it is in flight
 	AckDuringReopen bool `json:"ack_during_reopen"`
+	// RetryAck: the first re-open attempt is rejected (temporary failure); while the library pauses before its
+	// next attempt the consumer acknowledges everything it still holds (a batch) - the retry resumes from there
+	RetryAck bool `json:"retry_ack"`
 }
 
 func init() {
@@ -304,9 +307,24 @@ func lifeMain(p LifeParams) {
 			}
 			ackInFlight = len(pending) > 0 && vrt.Choose(2, true, "ack-while-the-reopen-is-in-flight") == 1
 		}
+		retryAck := p.RetryAck && len(pending) > 0 && vrt.Choose(2, true, "ack-between-two-re-open-attempts") == 1
+		if p.RetryAck {
+			c.Vb[0].Opens = []gocbcore.SimOpen{{Kind: "err", Err: gocbcore.ErrTemporaryFailure}}
+		}
 		if !c.EndStream(0, cause) {
 			vrt.Failf("harness: no open stream to end in segment %d", seg)
 			return
+		}
+		if p.RetryAck {
+			vrt.Sleep(200 * time.Millisecond) // the first attempt has been rejected, the library sleeps for a second
+			hist = append(hist, "(first re-open attempt rejected)")
+			if retryAck {
+				for _, le := range pending {
+					ack(le)
+				}
+				pending = nil
+				resumed = P.seq
+			}
 		}
 		grow := func() {
 			// two more documents: inside the still open snapshot if there is room, else a new snapshot
@@ -369,6 +387,13 @@ func lifeMain(p LifeParams) {
 		}
 		if ackInFlight {
 			checkTracked(fmt.Sprintf("after the re-open of segment %d completed", seg))
+		}
+		if p.RetryAck && answer != 2 && (want("delivery") || want("position")) {
+			// the stream request that re-opened the vBucket starts at the position settled by then
+			reqs := c.RequestsOf("openstream")
+			if last := reqs[len(reqs)-1]; len(last.Args) > 2 && last.Args[2] != resumed {
+				fail("segment %d: the vBucket was re-opened from %d, its latest settled position at that time is %d", seg, last.Args[2], resumed)
+			}
 		}
 		fresh := collect(seg, resumed)
 		acks(fresh)
